@@ -29,7 +29,7 @@ func (eng) CoqCaseType(mode string) string { return "Check_ds.case" }
 func (eng) CoqRun(mode string) string      { return "Check_ds.run" }
 func (eng) Rule(mode string) string {
 	return "search: every (n<=N0, target = each element, each gap, below, above) exhaustively for int slices and for table ranges, plus random large; " +
-		"heap/ppq/ziptree/cache/set/smap: random histories of 1..60 ops over small key/priority pools (duplicates, prefix-related keys, equal priorities, empty structure reached by draining); " +
+		"pset: persistent histories over a pool of set values (NewSet(cap) with spare capacity, SetOf, Added/Without/Diff from any member, in-place Add on any member), every member observed (Slice, All, Size, Has over the universe) at random points and at the end; heap/ppq/ziptree/cache/set/smap: random histories of 1..60 ops over small key/priority pools (duplicates, prefix-related keys, equal priorities, empty structure reached by draining); " +
 		"merge/mergesorted: 0..6 sorted iterators incl. empty ones, shared keys, exact duplicates. Non-trivial: history with >= 4 ops that reads at least once from a non-empty structure (search: n >= 2)."
 }
 
@@ -242,6 +242,55 @@ func genSet(r *hx.Rand) *hx.Case {
 	return mk("set", "rand", nil, ops)
 }
 
+// persistent use of Set: a pool of set values; ops derive new sets from pool members (Added / Without / Diff), create sets with
+// spare capacity (NewSet(cap)) or from elements (SetOf), mutate one member in place (Add), and observe EVERY member.
+var setElems = [][]byte{{1}, {2}, {3}, {4}, {5}, {1, 0}, {}, {255}}
+
+func genElems(r *hx.Rand, max int) [][]byte {
+	n := r.Intn(max + 1)
+	out := make([][]byte, n)
+	for i := range out {
+		if r.Chance(1, 8) {
+			out[i] = genKey(r)
+		} else {
+			out[i] = slices.Clone(hx.Pick(r, setElems))
+		}
+	}
+	return out
+}
+
+func genPSet(r *hx.Rand) *hx.Case {
+	var ops []op
+	n := r.Range(3, 28)
+	// start from a base with (usually) spare capacity, as the sst level lists do with NewSet(100)
+	switch r.Intn(4) {
+	case 0:
+		ops = append(ops, op{K: "of", L: genElems(r, 4)})
+	default:
+		ops = append(ops, op{K: "new", N: uint64(hx.Pick(r, []int{0, 1, 2, 4, 8, 16, 100}))}, op{K: "addin", N: 0, L: genElems(r, 4)})
+	}
+	for i := 0; i < n; i++ {
+		switch x := r.Intn(20); {
+		case x < 7:
+			ops = append(ops, op{K: "added", N: r.U64() % 64, L: genElems(r, 3)})
+		case x < 10:
+			ops = append(ops, op{K: "without", N: r.U64() % 64, L: genElems(r, 3)})
+		case x < 12:
+			ops = append(ops, op{K: "diff", N: r.U64() % 64, M: r.U64() % 64})
+		case x < 15:
+			ops = append(ops, op{K: "addin", N: r.U64() % 64, L: genElems(r, 3)})
+		case x == 15:
+			ops = append(ops, op{K: "new", N: uint64(hx.Pick(r, []int{0, 1, 3, 8, 100}))})
+		case x == 16:
+			ops = append(ops, op{K: "of", L: genElems(r, 4)})
+		default:
+			ops = append(ops, op{K: "obs"})
+		}
+	}
+	ops = append(ops, op{K: "obs"})
+	return mk("pset", "rand", nil, ops)
+}
+
 func genSMap(r *hx.Rand) *hx.Case {
 	var ops []op
 	n := histLen(r)
@@ -325,13 +374,13 @@ func searchCases(tier string, r *hx.Rand) []*hx.Case {
 
 func (eng) Generate(mode, tier string, r *hx.Rand) []*hx.Case {
 	cs := searchCases(tier, r)
-	per := 320
+	per := 250
 	if tier == "thorough" {
 		per = 5000
 		longHist = true
 	}
 	for i := 0; i < per; i++ {
-		cs = append(cs, genHeap(r.Fork()), genPPQ(r.Fork()), genZip(r.Fork()), genCache(r.Fork()), genSet(r.Fork()), genSMap(r.Fork()),
+		cs = append(cs, genHeap(r.Fork()), genPPQ(r.Fork()), genZip(r.Fork()), genCache(r.Fork()), genSet(r.Fork()), genPSet(r.Fork()), genSMap(r.Fork()),
 			genMerge(r.Fork(), "merge"), genMerge(r.Fork(), "msorted"))
 	}
 	return cs
@@ -842,6 +891,105 @@ func (eng) execute(mode string, c *hx.Case) (*hx.Result, error) {
 			}
 		}
 		return &hx.Result{Term: "CSet " + hx.CoqList(terms, "set_op"), Nontrivial: len(terms) >= 4 && reads > 0, Tags: append(tags, lenTag()), Observed: obs}, nil
+
+	case "pset":
+		strs := func(l [][]byte) []string {
+			out := make([]string, len(l))
+			for i, b := range l {
+				out[i] = string(b)
+			}
+			return out
+		}
+		// universe: every element mentioned in the case plus one that never is
+		seen := map[string]bool{"\x07absent": true}
+		for _, o := range ops {
+			for _, b := range o.L {
+				seen[string(b)] = true
+			}
+		}
+		var univ []string
+		for k := range seen {
+			univ = append(univ, k)
+		}
+		slices.Sort(univ)
+		univB := make([][]byte, len(univ))
+		for i, k := range univ {
+			univB[i] = []byte(k)
+		}
+		var pool []*ds.Set[string]
+		derived, spare := 0, false
+		for _, o := range ops {
+			pick := func(x uint64) int { return int(x % uint64(len(pool))) }
+			switch o.K {
+			case "new":
+				pool = append(pool, ds.NewSet[string](int(o.N)))
+				if o.N > 0 {
+					spare = true
+				}
+				add(fmt.Sprintf("PNew %d", o.N), nil)
+			case "of":
+				pool = append(pool, ds.SetOf(strs(o.L)...))
+				add("POf "+bytesList(o.L), nil)
+			case "addin":
+				if len(pool) == 0 {
+					continue
+				}
+				i := pick(o.N)
+				pool[i].Add(strs(o.L)...)
+				add(fmt.Sprintf("PAddInPlace %d %s", i, bytesList(o.L)), i)
+			case "added":
+				if len(pool) == 0 {
+					continue
+				}
+				i := pick(o.N)
+				pool = append(pool, pool[i].Added(strs(o.L)...))
+				derived++
+				add(fmt.Sprintf("PAdded %d %s", i, bytesList(o.L)), i)
+			case "without":
+				if len(pool) == 0 {
+					continue
+				}
+				i := pick(o.N)
+				pool = append(pool, pool[i].Without(strs(o.L)...))
+				derived++
+				add(fmt.Sprintf("PWithout %d %s", i, bytesList(o.L)), i)
+			case "diff":
+				if len(pool) == 0 {
+					continue
+				}
+				i, j := pick(o.N), pick(o.M)
+				pool = append(pool, pool[i].Diff(pool[j]))
+				derived++
+				add(fmt.Sprintf("PDiff %d %d", i, j), []int{i, j})
+			case "obs":
+				items := make([]string, len(pool))
+				var ob []any
+				for k, st := range pool {
+					var sl, all [][]byte
+					for _, v := range st.Slice() {
+						sl = append(sl, []byte(v))
+					}
+					for v := range st.All() {
+						all = append(all, []byte(v))
+					}
+					has := make([]string, len(univ))
+					for u, v := range univ {
+						has[u] = hx.CoqBool(st.Has(v))
+					}
+					if len(sl) > 0 {
+						reads++
+					}
+					items[k] = fmt.Sprintf("(%s, %s, %s, %s)", bytesList(sl), bytesList(all), hx.CoqN(uint64(st.Size())), hx.CoqList(has, "bool"))
+					ob = append(ob, sl)
+				}
+				add("PObs "+hx.CoqList(items, "list bytes * list bytes * N * list bool"), ob)
+			}
+		}
+		if spare {
+			tags = append(tags, "pset:base-with-spare-capacity")
+		}
+		tags = append(tags, fmt.Sprintf("pset:derived=%d", min(derived/4*4, 12)))
+		return &hx.Result{Term: "CPSet " + bytesList(univB) + " " + hx.CoqList(terms, "pset_op"), Nontrivial: len(terms) >= 4 && reads > 0 && derived >= 2, Tags: append(tags, lenTag()), Observed: obs}, nil
 
 	case "smap":
 		m := ds.NewSortedMap[string, uint64]()
